@@ -456,12 +456,22 @@ def ring_design(rng: random.Random, sched="eager"):
                 res.append(m)
             if not any(n["t"] == "call" and g.sites[n["s"] - 1]["callee"] == m for n in g.bodies[t - 1]["ch"]):
                 g.bodies[t - 1]["ch"].append(g.call(t, m))
+    # variant: the producer and the consumer are ALSO related by an unprioritised add_conflict declared (on two
+    # further methods, defined and related first) before the ordering of w and r: the same pair of transactions
+    # is related twice, and only the second relation carries the order
+    pre = []
+    if r.random() < 0.4:
+        store, load = meth(ready=r.random() < 0.5), meth(ready=r.random() < 0.5)
+        g.bodies[P - 1]["ch"].append(g.call(P, store))
+        g.bodies[C - 1]["ch"].append(g.call(C, load))
+        g.rels.append(dict(a=store, b=load, kind="conflict", prio="U", rdep=False))
+        pre = [store, load]
     for s in g.sites:
         s["en"], s["alias"] = 0, 0
     g.rels.append(dict(a=w, b=rd, kind="before", prio="L", rdep=False))
     ts = [P, C] + others
     r.shuffle(ts)
-    root = [{"t": "body", "b": b} for b in [w, rd] + res + ts]
+    root = [{"t": "body", "b": b} for b in pre + [w, rd] + res + ts]
     return dict(nin=g.nin, nargs=g.nargs, bodies=g.bodies, sites=g.sites, wits=g.wits, rels=g.rels, sched=sched,
                 roots=[root, []], nmods=1, const0=[])
 
